@@ -50,6 +50,9 @@ C15_PowerTableCIDs == IsP => P_PowerTableCIDs(NodeCase, obs.inst, obs.o)
 C15_SupplementalCommitsNext == IsP => P_Supplemental(NodeCase, obs.inst, obs.o)
 C15_CommitteeFromFinality == IsC => (C_FromFinality(cur, obs.i, obs.a) /\ C_FromFinality(CaseB, obs.i, obs.b))
 C15_CommitteeSameAcrossNodes == IsC => C_SameAcrossNodes(cur, obs.i, obs.a, obs.b)
+\* the committee's aggregate verifier is keyed on the key order of the committee's own power table (a function of
+\* finalized history), never on the order in which EC or the store happened to hand out the entries
+C15_CommitteeVerifierCanonical == IsC => (obs.a.aggcanon /\ obs.b.aggcanon)
 C15_ParticipantBoundsChain == obs.kind = "Begin" => B_Bounded(obs.n, obs.badpos, obs.ob)
 
 \* conformance with the implementation-shaped reference
@@ -63,7 +66,7 @@ Conf_BeginExact == obs.kind = "Begin" => LET e == BeginExpect(obs.n, obs.badpos)
 
 Clauses == {"C15_StartsAtFinalized", "C15_AlongHeadParents", "C15_WellFormed", "C15_WithinLimits", "C15_CollapsesOnDivergence",
             "C15_PowerTableCIDs", "C15_SupplementalCommitsNext", "C15_CommitteeFromFinality", "C15_CommitteeSameAcrossNodes",
-            "C15_ParticipantBoundsChain", "Conf_ProposalExact", "Conf_CommitteeExact", "Conf_BeginExact"}
+            "C15_CommitteeVerifierCanonical", "C15_ParticipantBoundsChain", "Conf_ProposalExact", "Conf_CommitteeExact", "Conf_BeginExact"}
 PropClauses == Clauses \ {"Conf_ProposalExact", "Conf_CommitteeExact", "Conf_BeginExact"}
 Holds(x) == CASE x = "C15_StartsAtFinalized" -> C15_StartsAtFinalized [] x = "C15_AlongHeadParents" -> C15_AlongHeadParents
               [] x = "C15_WellFormed" -> C15_WellFormed [] x = "C15_WithinLimits" -> C15_WithinLimits
@@ -71,6 +74,7 @@ Holds(x) == CASE x = "C15_StartsAtFinalized" -> C15_StartsAtFinalized [] x = "C1
               [] x = "C15_SupplementalCommitsNext" -> C15_SupplementalCommitsNext
               [] x = "C15_CommitteeFromFinality" -> C15_CommitteeFromFinality
               [] x = "C15_CommitteeSameAcrossNodes" -> C15_CommitteeSameAcrossNodes
+              [] x = "C15_CommitteeVerifierCanonical" -> C15_CommitteeVerifierCanonical
               [] x = "C15_ParticipantBoundsChain" -> C15_ParticipantBoundsChain
               [] x = "Conf_ProposalExact" -> Conf_ProposalExact [] x = "Conf_CommitteeExact" -> Conf_CommitteeExact
               [] x = "Conf_BeginExact" -> Conf_BeginExact
